@@ -217,7 +217,9 @@ static void run_line(const std::string &line) {
         if (g.isFourier()) { std::vector<double> cc(2 * c.size(), 0.0); std::copy(c.begin(), c.end(), cc.begin()); for (size_t i = 0; i < c.size(); i++) cc[c.size() + i] = 0.25 * c[i]; c = cc; }
         g.setHierarchicalCoefficients(c); }
     else if (cmd == "remtol") { Slot &s = S(k.next()); double tol = k.nd(); int out = k.ni(); s.g.removePointsByHierarchicalCoefficient(tol, out); }
-    else if (cmd == "remcount") { Slot &s = S(k.next()); int n = k.ni(); int out = k.ni(); s.g.removePointsByHierarchicalCoefficient(n, out); }
+    else if (cmd == "remcount") { Slot &s = S(k.next()); int n = k.ni(); int out = k.ni();
+        // keeping more points than the grid holds is outside the documented use ("keeps only the given number of points"): skipped
+        if (n > 0 && n < s.g.getNumLoaded()) s.g.removePointsByHierarchicalCoefficient(n, out); }
     else if (cmd == "begin") S(k.next()).g.beginConstruction();
     else if (cmd == "finish") S(k.next()).g.finishConstruction();
     else if (cmd == "cand") { Slot &s = S(k.next()); std::string kind = k.next();
@@ -267,6 +269,7 @@ static void run_line(const std::string &line) {
         std::vector<int> r; for (size_t i = 0; d && i + d <= x.size(); i += d) r.push_back(ins(std::vector<double>(x.begin() + i, x.begin() + i + d)) ? 1 : 0); pi("inside", r); }
     else if (cmd == "probe") { // probe <s> <nrandom> <seed>: evaluation points = random points of the domain, some nodes, and points exactly at node +- support
         Slot &s = S(k.next()); int nr = k.ni(); uint64_t seed = (uint64_t) k.ni(); TasmanianSparseGrid &g = s.g; int d = g.getNumDimensions();
+        bool only_random = k.more() && k.peek("only"); // "probe <s> <n> <seed> only": exactly n random points (e.g. batches of 32, 64)
         std::vector<double> pts = g.getPoints(), sup = g.getHierarchicalSupport(); size_t n = d ? pts.size() / d : 0; s.probe.clear();
         if (n > 0) {
             std::vector<double> lo(d, 1e300), hi(d, -1e300);
@@ -276,6 +279,7 @@ static void run_line(const std::string &line) {
             for (int j = 0; j < d; j++) if (hi[j] <= lo[j]) { lo[j] -= 0.5; hi[j] += 0.5; }
             auto rnd = [&]() -> double { seed = mix(seed + 0x9e3779b97f4a7c15ULL); return (double) (seed >> 11) / 9007199254740992.0; };
             for (int i = 0; i < nr; i++) for (int j = 0; j < d; j++) s.probe.push_back(lo[j] + (hi[j] - lo[j]) * rnd());
+            if (only_random) { pd("probe", s.probe); return; }
             for (int i = 0; i < 4 && n > 0; i++) { size_t p = (size_t) (rnd() * n) % n; for (int j = 0; j < d; j++) s.probe.push_back(pts[p * d + j]); }
             // points half-way between adjacent node coordinates (for periodic bases: half a period from a node of the finest level)
             for (int i = 0; i < 4; i++) { std::vector<double> x(d); bool okp = true;
